@@ -152,13 +152,18 @@ func (s *SchemaValidator) Validate(data interface{}) *Result {
 
 	if data == nil {
 		// early exit with minimal validation
-		result.Merge(s.validators[0].Validate(data)) // type validator
-		result.Merge(s.validators[6].Validate(data)) // common validator
+		typeValidator, commonValidator := s.validators[0], s.validators[6]
+		if s.Options.recycleValidators {
+			// a recycled validator redeems itself: relinquish it before it runs,
+			// so that it is never redeemed twice, even when it panics
+			s.validators[0] = nil
+		}
+		result.Merge(typeValidator.Validate(data)) // type validator
 
 		if s.Options.recycleValidators {
-			s.validators[0] = nil
 			s.validators[6] = nil
 		}
+		result.Merge(commonValidator.Validate(data)) // common validator
 
 		return result
 	}
@@ -223,10 +228,12 @@ func (s *SchemaValidator) Validate(data interface{}) *Result {
 			continue
 		}
 
-		result.Merge(v.Validate(d))
 		if s.Options.recycleValidators {
+			// a recycled validator redeems itself: relinquish it before it runs,
+			// so that it is never redeemed twice, even when it panics
 			s.validators[idx] = nil // prevents further (unsafe) usage
 		}
+		result.Merge(v.Validate(d))
 		result.Inc()
 	}
 	result.Inc()
